@@ -412,12 +412,14 @@ def isReservedOp (op : Nat) : Bool := Gen.reservedOpcodes.contains op
 
 /-- `frame.validate()` on a frame whose payload is still empty (+ the repaired length rule) -/
 def validateFrame (v : Variant) (compression : Bool) (f : Frame) (len : Nat) : Except Exn Unit :=
-  if v.ctrlLen ∧ f.isControl ∧ len > 125 then
-    .error (.protocol "control frames must be <= 125 bytes in length")
-  else if (if compression then f.rsv2 ≠ 0 ∨ f.rsv3 ≠ 0 else f.rsv1 ≠ 0 ∨ f.rsv2 ≠ 0 ∨ f.rsv3 ≠ 0) then
+  -- `frame.validate()`: its own control-length test looks at the still-empty payload (vacuous)
+  if (if compression then f.rsv2 ≠ 0 ∨ f.rsv3 ≠ 0 else f.rsv1 ≠ 0 ∨ f.rsv2 ≠ 0 ∨ f.rsv3 ≠ 0) then
     .error (.protocol "reserved bits set")
   else if isReservedOp f.opcode then .error (.protocol "opcode is reserved")
   else if f.fin = 0 ∧ f.isControl then .error (.protocol "control frames may not be fragmented")
+  -- the length rule, applied where the length is known (repair of D1)
+  else if v.ctrlLen ∧ f.isControl ∧ len > 125 then
+    .error (.protocol "control frames must be <= 125 bytes in length")
   else .ok ()
 
 /-- `ClientFrameParser.on_frame` + the `yield frame`; returns the parser state awaiting `read(2)` -/
